@@ -19,7 +19,8 @@ Compilation scheme (syntax-directed; nothing is "understood", nothing is optimis
   `float(s)`, attribute access on an optional) are compiled to monadic code that preserves Python's left-to-right
   evaluation and the short-circuit of `and` / `or`;
 * names that resolve, in the module's global namespace, to `str` / `int` / `float` / `bool` constants
-  (`Rule.IF`, tuple-unpacked `range(5)`, `2**i` generators) are evaluated at translation time and emitted as literals;
+  (`Rule.IF`, tuple-unpacked `range(5)`, `2**i` generators) are evaluated at translation time and emitted as literals
+  (the floats `nan`, `inf`, `-inf` are `X.nan`, `X.pinf`, `X.ninf`);
   a tuple assignment whose targets are all *declared locals* (`a, b, c = (0, 0, 0)`) is a sequence of ordinary
   assignments instead (the right-hand sides must not mention the targets);
 * a `bool` operand of `+` / `-` / `*` next to a number is the number 0 / 1 (`n += x in l`): `Bool.toNat`;
@@ -27,6 +28,8 @@ Compilation scheme (syntax-directed; nothing is "understood", nothing is optimis
   the local list `v`: `x[...] = e` assigns the current row, every completed iteration writes the current row back,
   and `v` is the list of written rows after the loop.  The body must not mention `v` and must not `break`
   (then "the rows written so far" and "`v` with the first rows replaced" cannot be told apart);
+* `o or d`, where the profile types `o` as `Option T` and `d` as `T`, is `o.getD d` (an optional object that has no
+  `__bool__` / `__len__`: it is false only when it is `None`); every other `and` / `or` is a truth-value operation;
 * everything else (method calls on library objects, dictionary lookups, NumPy) must be named by an *external*
   rule of the profile: a Python expression pattern with holes `_0, _1, ...` and a Lean template.  The externals are
   the vocabulary the model is written in; their meaning is part of the trusted base and is listed in the output.
@@ -171,7 +174,7 @@ class Fn:
         self.fdef = ast.parse(src).body[0]
         if not isinstance(self.fdef, ast.FunctionDef):
             raise Untranslatable("not a function definition")
-        declared = set(profile.get("locals", {})) | {n for n, _ in self.params}
+        declared = set(profile.get("locals", {})) | {n for n, _ in profile.get("params", [])}
         for n in ast.walk(self.fdef):
             if isinstance(n, ast.Name) and n.id in declared and n.id in LEAN_RESERVED:
                 n.id = mangle(n.id)
@@ -207,6 +210,8 @@ class Fn:
         if isinstance(v, str):
             return E(lean_str(v), "String")
         if isinstance(v, float):
+            if v != v or v in (float("inf"), float("-inf")):
+                return E("X.nan" if v != v else ("X.pinf" if v > 0 else "X.ninf"), "X Rat")
             if v == int(v) and abs(v) < 2**53:
                 return E(f"(.fin {int(v)})" if v >= 0 else f"(.fin ({int(v)}))", "X Rat")
             n, d = v.as_integer_ratio()
@@ -334,6 +339,9 @@ class Fn:
             return self.var(node.id)
         if isinstance(node, ast.BoolOp):
             vals = [self.ce(v) for v in node.values]
+            if isinstance(node.op, ast.Or) and len(vals) == 2 and vals[0].ty in (f"Option {vals[1].ty}", f"Option {paren(vals[1].ty)}") and vals[1].pure:
+                # `o or default` for an optional object without `__bool__` / `__len__`: the object, or the default for None
+                return self.bind1(vals[0], lambda x: f"(({x}).getD {paren(vals[1].term)})", vals[1].ty)
             tys = {v.ty for v in vals}
             if tys != {"Bool"}:
                 vals = [self.truthy(v) for v in vals]  # only used in boolean positions (checked by callers)
